@@ -103,7 +103,9 @@ pub fn slice_session(data: &[u8], sh: bool, sched: &[Resp], is_async: bool, cap:
             slices2.borrow_mut().push(s.to_vec());
         };
         if !is_async {
-            let mut rd = match cap { Some(c) => DltMessageReader::with_capacity(c, 65551, script, sh), None => DltMessageReader::new(script, sh) };
+            // explicit capacities: a small BufReader (c < 65551, scratch buffer of the same size; only used by the drivers for streams
+            // whose every declared message fits) or a large one
+            let mut rd = match cap { Some(c) if c < 65551 => DltMessageReader::with_capacity(c, c, script, sh), Some(c) => DltMessageReader::with_capacity(c, 65551, script, sh), None => DltMessageReader::new(script, sh) };
             for _ in 0..1000 {
                 match rd.next_message_slice() {
                     Ok(s) if s.is_empty() => { end_entry(&log2, "eos"); break; }
@@ -112,7 +114,7 @@ pub fn slice_session(data: &[u8], sh: bool, sched: &[Resp], is_async: bool, cap:
                 }
             }
         } else {
-            let mut rd = match cap { Some(c) => DltStreamReader::with_capacity(c, 65551, script, sh), None => DltStreamReader::new(script, sh) };
+            let mut rd = match cap { Some(c) if c < 65551 => DltStreamReader::with_capacity(c, c, script, sh), Some(c) => DltStreamReader::with_capacity(c, 65551, script, sh), None => DltStreamReader::new(script, sh) };
             futures::executor::block_on(async {
                 for _ in 0..1000 {
                     match rd.next_message_slice().await {
@@ -265,7 +267,11 @@ pub fn record(mode: &str, seed: u64, n: usize, out: &mut Out) {
                 let data = random_stream(&mut r, sh);
                 let sched = random_sched(&mut r);
                 let cfg = if i % 3 == 0 { Some(slice::random_filter(&mut r, None)) } else { None };
-                let cap = if i % 5 == 0 { Some(65551 + r.below(100) as usize) } else { None };
+                // the largest message any header position of this stream could declare: small capacities are only legitimate above it
+                let o = if sh { 16 } else { 0 };
+                let mut maxdecl = o + 4;
+                for p in 0..data.len().saturating_sub(o + 3) { let d = o + ((data[p + o + 2] as usize) << 8 | data[p + o + 3] as usize); if d > maxdecl { maxdecl = d; } }
+                let cap = if i % 5 == 0 { Some(65551 + r.below(100) as usize) } else if i % 5 == 1 && maxdecl < 400 { Some(maxdecl + r.below(40) as usize) } else { None };
                 out.calls += 3;
                 let e = reader_event(&data, sh, &sched, mode == "async", cap, cfg.as_ref());
                 let nsrc = e["log"].as_array().unwrap().iter().filter(|x| x["t"] == "src").count();
